@@ -1,4 +1,14 @@
 CHECKS = {
+ "C08": {
+  "text": "Histories of consecutive step() calls on one model with trial outcomes engineered through a scripted user-supplied solver "
+          "(descent / no change / ascent / overshoot / raise at the j-th solve), three strategies with drawn legal hyper-parameters behind "
+          "a recording wrapper, reject 0..16, kernels; seven invariants asserted after every step and inside every solver call, with the "
+          "loss recomputed by the harness from its own residuals and kernel closed forms; an exhaustive enumeration of all outcome "
+          "patterns of length reject+2 over a 4-symbol alphabet for small reject; GaussNewton histories. Bounded histories (<= 30 calls).",
+  "design_ref": "DESIGN.md section 3, C08",
+  "note": "Model family is fixed (atan residuals + point alignment); the damping rule is only classified when the recomputed quality is clear of the thresholds.",
+  "technique": "property-based testing: history generation with fault injection (scripted solver) and invariants against a reference loss",
+ },
  "C09": {
   "text": "Generated inputs for all 7 kernels (parameters with exact squares, elements exactly at / 2^k eps around the threshold, 0, tiny, "
           "huge; both dtypes; any shape) against 40-digit mpmath closed forms (value, finiteness, k(0)=0, monotone, Huber value and slope "
